@@ -226,9 +226,18 @@ class Ctx:
         items = list(items)
         if not items:
             return []
+        procs = int(os.environ.get("VERIF_PROCS", procs))          # VERIF_PROCS=1: in-process (line-coverage measurements)
         if procs <= 1 or len(items) < 4:
             setup_import_path()
             return [_timed_call((fn, x, limit)) for x in items]
+        # import the implementation in this process first: a tree that does not import must end the check at once
+        # (a pool whose initializer raises would respawn its workers for ever)
+        try:
+            setup_import_path()
+        except Machinery:
+            raise
+        except BaseException as ex:
+            raise Machinery(f"the implementation under test does not import: {type(ex).__name__}: {ex}")
         with mp.get_context("fork").Pool(procs, initializer=setup_import_path) as pool:
             return pool.map(_timed_call, [(fn, x, limit) for x in items], chunksize=chunksize)
 
